@@ -7,6 +7,7 @@ them and serialises what they yielded.  The judge re-derives the image from the 
 """
 import atexit
 import io
+import itertools
 import os
 import re
 import shutil
@@ -18,18 +19,20 @@ from lib import exn_code
 GEN = ["RecfmParams"]
 RULE = ("record lists written as F (lrecl 1..65536), V, VB (random legal blockings incl. blocks of exactly 65535 bytes) and N; "
         "lengths concentrated on 1, 2, 16383-16385, 20000, 32756-32768 (N: straddling the 32768-byte refill boundary), 65531 and random; "
+        "resumed reading: F / V / VB files read in 2-5 passes on one reader object (islice of record_iter / rdw_iter / bdw_iter, cut points 0, 1, all-but-one, all, beyond, random; VB record-level cuts at block boundaries, 15% inside a block = outside the domain), each pass must deliver exactly its share; "
         "both io.BufferedReader and io.BytesIO sources; thorough adds all ordered pairs of 19 boundary lengths and all triples of 8 for N. "
-        "Branch = 10*format (0 F, 1 V, 2 VB, 3 N) + class: 0 no records, 1/2 in the domain (N: 2 = file longer than the buffer; VB: 2 = some block "
+        "Branch = 10*format (0 F, 1 V, 2 VB, 3 N, 4/5/6 = F/V/VB resumed) + class: 0 no records, 1/2 in the domain (N: 2 = file longer than the buffer; VB: 2 = some block "
         "holds several records; F: 2 = lrecl + 4 does not fit a length word), "
         "3 / 9 = outside the property's domain (illegal record list / raw or corrupt image) and the implementation equals the model, "
         "4 / 8 (F also 5) = outside the domain and the implementation differs from the model (informational, never an alarm: "
         "the property says nothing there). Non-trivial = at least one record; distinct = distinct case lines.")
-TRIVIAL_BRANCHES = [0, 10, 20, 30]
+TRIVIAL_BRANCHES = [0, 10, 20, 30, 40, 50, 60]
 ASSUMPTIONS = [
     "source.read(n) on a regular file or BytesIO returns exactly min(n, remaining) bytes (short reads of pipes/sockets are outside the property)",
     "read(n) for n < 0: io.BufferedReader raises ValueError for n < -1 and reads to EOF for -1; io.BytesIO reads to EOF (modelled; reached only by corrupt headers, outside the theorems)",
     "struct '>H2x' = two-byte big-endian unsigned length followed by two pad bytes (modelled by hand, tied by this run and by the T1 format check)",
     "assert statements are enabled (no python -O): RECFM_VB reports a corrupt block by AssertionError",
+    "resumed reading: an abandoned iterator is never resumed; a RECFM_VB record-level iterator abandoned inside a block keeps the rest of that block (inherent: outside the property, modelled)",
     "the consumer of RECFM_N calls used(n) exactly once per buffer with the true record length (the theorem's driving sequence)",
 ]
 TRUSTED = ["harness/c05.py: image writer (checked by the judge against Spec.write_*), lossless run-length form of byte strings (enc)",
@@ -148,6 +151,29 @@ def drive_N(cls, kind, image, lens):
         return [items, end, src.tell()]
 
 
+def multi_pass(make_reader, kind, image, passes):
+    """resumed reading: every pass starts a NEW iterator on the SAME reader; a pass with k >= 0 takes k items with
+    islice and leaves its iterator suspended (the abandoned iterators stay referenced until the source is closed)"""
+    obs = []
+    abandoned = []
+    with open_src(kind, image) as src:
+        reader = make_reader(src)
+        cap = len(image) + 8
+        for w, k in passes:
+            items = []
+            end = [0]
+            try:
+                it = [reader.record_iter, reader.rdw_iter, getattr(reader, "bdw_iter", None)][w]()
+                abandoned.append(it)
+                for x in itertools.islice(it, k if k >= 0 else cap):
+                    items.append(enc(x))
+            except BaseException as ex:
+                end = _end_exc(ex)
+            obs.append([items, end, src.tell()])
+        del abandoned[:]
+    return obs
+
+
 # ------------------------------------------------------------------ observe
 
 
@@ -181,6 +207,11 @@ def observe(ctx, inp):
             if fmt == "N":
                 lens = inp.get("lens", [len(r) for r in recs])
     empty = [[], [0], 0]
+    if "passes" in inp:
+        passes = [list(p) for p in inp["passes"]]
+        make = {"F": lambda src: estruct.RECFM_F(src, lrecl), "V": estruct.RECFM_V, "VB": estruct.RECFM_VB}[fmt]
+        obs = multi_pass(make, kind, image, passes)
+        return [FMT[fmt] + 4, kind, clean, lrecl or 0, recs_sx, passes, enc(image), obs, [], []]
     if fmt == "F":
         oA = drain(kind, image, lambda s: estruct.RECFM_F(s, lrecl).record_iter())
         oB = drain(kind, image, lambda s: estruct.RECFM_F(s, lrecl).rdw_iter())
@@ -203,6 +234,9 @@ def describe(inp):
     def one(r):
         return f"{len(r) // 2}B:{r[:16]}" if isinstance(r, str) else f"{r[0]}B(start {r[1]} step {r[2]})"
     d = {k: v for k, v in inp.items() if k not in ("recs", "blocks")}
+    if "passes" in inp:
+        names = ["record_iter", "rdw_iter", "bdw_iter"]
+        d["passes"] = [f"{names[w]} x{k}" if k >= 0 else f"{names[w]} to the end" for w, k in inp["passes"]]
     if "recs" in inp:
         d["recs"] = [one(r) for r in inp["recs"][:12]] + (["..."] if len(inp["recs"]) > 12 else [])
         d["n_recs"] = len(inp["recs"])
@@ -318,6 +352,54 @@ def vb_corrupt(rng):
     return {"fmt": rng.choice(["VB", "VB", "V"]), "kind": rng.randrange(2), "raw": bytes(image).hex()}
 
 
+def cut_points(rng, n):
+    """how many items each partial pass takes out of n: 0, 1, all-but-one, all, more than all, random"""
+    cuts = []
+    left = n
+    for _ in range(rng.randint(1, 4)):
+        k = rng.choice([0, 1, 1, 2, max(left - 1, 0), left, left + 2, rng.randint(0, left + 1), rng.randint(0, left + 1)])
+        cuts.append(k)
+        left = max(left - k, 0)
+    return cuts
+
+
+def gen_multi(rng, fmt, big):
+    """one file, one reader, several iterators one after the other; the last pass runs to exhaustion"""
+    if fmt == "F":
+        inp = gen_F(rng, big)
+        if inp["lrecl"] > 65531:
+            inp["lrecl"] = 65531
+            inp["recs"] = [rec(rng, 65531) for _ in inp["recs"][:2]]
+        if not big:
+            inp["recs"] = [rec(rng, inp["lrecl"]) for _ in range(rng.randint(0, 14))]
+        inp["passes"] = [[rng.randrange(2), k] for k in cut_points(rng, len(inp["recs"]))] + [[rng.randrange(2), -1]]
+    elif fmt == "V":
+        inp = gen_V(rng, big)
+        inp["passes"] = [[rng.randrange(2), k] for k in cut_points(rng, len(inp["recs"]))] + [[rng.randrange(2), -1]]
+    else:
+        inp = gen_VB(rng, big)
+        while not big and len(inp["blocks"]) < 2 and rng.random() < 0.8:
+            inp = gen_VB(rng, big)
+        blocks = inp["blocks"]
+        inside = rng.random() < 0.15           # some record-level cuts inside a block (outside the property, model only)
+        passes = []
+        at = 0                                  # index of the next unread block
+        for _ in range(rng.randint(1, 4)):
+            w = rng.randrange(3)
+            j = rng.choice([0, 1, 1, 2, len(blocks) - at - 1, len(blocks) - at, rng.randint(0, len(blocks) - at + 1)])
+            j = max(j, 0)
+            if w == 2:
+                k = j
+            else:
+                k = sum(len(b) for b in blocks[at:at + j])
+                if inside and k > 0:
+                    k -= 1
+            passes.append([w, k])
+            at = min(at + j, len(blocks))
+        inp["passes"] = passes + [[rng.randrange(3), -1]]
+    return inp
+
+
 def fixed_cases():
     three = [[20000, 1, 1], [20000, 2, 3], [20000, 3, 5]]
     yield {"fmt": "N", "kind": 0, "recs": three}                                       # the record list the original tree mis-read
@@ -329,6 +411,16 @@ def fixed_cases():
     yield {"fmt": "N", "kind": 0, "recs": [[40000, 0, 1], [5, 7, 3]]}                    # record longer than the buffer: outside the domain
     yield {"fmt": "N", "kind": 0, "recs": [[1, k, 1] for k in range(40)] + [[32768, 5, 7], [1, 0, 1]]}
     yield {"fmt": "F", "kind": 0, "lrecl": 4, "recs": ["c1c2c3c4", "c5c6c7c8"]}
+    # resumed reading: header record with one iterator, the rest with another; batches; block-wise copy
+    yield {"fmt": "V", "kind": 1, "recs": ["c8c4d9", "c1c2c3c4", "c5c6", "c7"], "passes": [[0, 1], [1, -1]]}
+    yield {"fmt": "V", "kind": 0, "recs": [[300, 1, 1], [5, 2, 3], [20000, 3, 5], [1, 4, 7], [7, 5, 1]], "passes": [[0, 2], [0, 2], [0, 2], [0, -1]]}
+    yield {"fmt": "V", "kind": 0, "recs": ["c1", "c2c3"], "passes": [[0, 0], [1, 5], [0, -1]]}
+    yield {"fmt": "F", "kind": 0, "lrecl": 3, "recs": ["c1c2c3", "c4c5c6", "c7c8c9"], "passes": [[0, 1], [1, 1], [0, -1]]}
+    yield {"fmt": "F", "kind": 0, "lrecl": None, "recs": ["c1c2"], "passes": [[0, 0], [0, 1], [0, -1]]}
+    yield {"fmt": "VB", "kind": 1, "blocks": [["c8c4d9"], ["c1c2", "c3"], ["c4", "c5c6c7"]], "passes": [[0, 1], [0, -1]]}
+    yield {"fmt": "VB", "kind": 0, "blocks": [["c8c4d9"], ["c1c2", "c3"], ["c4", "c5c6c7"], ["c8"]], "passes": [[2, 1], [1, 2], [2, 1], [0, -1]]}
+    yield {"fmt": "VB", "kind": 0, "blocks": [["c1c2", "c3"], ["c4"]], "passes": [[0, 1], [0, -1]]}   # cut inside a block: the rest of the block is lost (outside the domain)
+    yield {"fmt": "VB", "kind": 0, "blocks": [[[40000, 1, 1]], [[20000, 2, 3], [9, 1, 1]], [[3, 3, 5]]], "passes": [[2, 1], [0, 2], [1, -1]]}
     yield {"fmt": "F", "kind": 0, "lrecl": None, "recs": ["c1c2c3c4"]}                   # TypeError
     yield {"fmt": "F", "kind": 0, "lrecl": 4, "recs": ["c1c2c3c4", "c5c6"]}              # short last record: outside the domain
     yield {"fmt": "F", "kind": 0, "lrecl": 65531, "recs": [[65531, 1, 1], [65531, 2, 3]]}
@@ -361,6 +453,11 @@ def inputs(ctx):
             yield name + "-small", g(rng, False)
         for _ in range(n_big * scale):
             yield name + "-big", g(rng, True)
+    for fmt, n_small, n_big in [("F", 40, 3), ("V", 90, 5), ("VB", 110, 5)]:
+        for _ in range(n_small * scale):
+            yield fmt + "-resumed", gen_multi(rng, fmt, False)
+        for _ in range(n_big * scale):
+            yield fmt + "-resumed-big", gen_multi(rng, fmt, True)
     for _ in range(250 * scale):
         yield "raw", gen_raw(rng)
     for _ in range(150 * scale):
